@@ -381,6 +381,13 @@ func C05(tier string) *engine.Report {
 		rep.Coverage["nested_post_chains"] = map[string]any{"executions": cres.Executions, "finished": cres.Exhaustive, "violations": len(cres.Violations),
 			"space": "poll call {PollOne, RunOneFor, RunOne, Poll} x descriptor ready {before the first poll, written by the first handler of the chain} x fan-out {1,2} x chain started by {the program, a posted handler}; the chain re-posts until the read it waits for is delivered"}
 	}
+	if len(rep.Violations) == 0 {
+		bres := c05BulkDFS(tier).Run()
+		tot.Add(bres, rep)
+		executions += bres.Executions
+		rep.Coverage["bulk_posts"] = map[string]any{"executions": bres.Executions, "finished": bres.Exhaustive, "violations": len(bres.Violations),
+			"space": "K in {1,2,63,64,65,127,128,129,130,255,256,257,300,1024,1025} handlers queued before the first poll x 4 poll calls x the first | middle | last handler posts one more: all run once, in posting order"}
+	}
 	c05RacePass(rep)
 	tot.Fill(rep, "all interleavings up to the preemption bound of loop L + posters P1,P2 (and, in the later thorough stages, P3) (1-2 posts each; optionally a nested post; loop-side activity between polls: none | arm+cancel a FIFO read | arm+cancel a FIFO write | a FIFO write disarmed inside Poll) over the real poller instrumented by an overlay rewrite (mutex, atomics, plain pending accesses, eventfd read/write are scheduling points); "+
 		"non-trivial = the schedule switched threads at least twice", 0)
@@ -411,6 +418,9 @@ func C05Replay(v engine.Violation, log func(string)) *engine.Violation {
 			return &vv
 		}
 		return nil
+	}
+	if strings.HasPrefix(v.Config, "post-bulk@") {
+		return c05BulkDFS(v.Config[len("post-bulk@"):]).ReplayChoices(v.Choices)
 	}
 	if strings.HasPrefix(v.Config, "post-chain@") {
 		return c05ChainDFS(v.Config[len("post-chain@"):]).ReplayChoices(v.Choices)
